@@ -130,13 +130,12 @@ def run_history(case):
                 users.append(loop.create_task(proto.get_device_entry(DeviceType(int(ev[1:])))))
             elif ev == "XU":
                 pending = len(loop.held)
-                holder = proto._entry_lock.locked() and users and not users[-1].done()
                 if users:
                     users[-1].cancel()
                 loop.settle()
                 if users and not users[-1].cancelled():
                     executor_ok = False
-                obs.setdefault("pending_jobs_around_XU", []).append((pending, len(loop.held), bool(holder)))
+                obs.setdefault("pending_jobs_around_XU", []).append((pending, len(loop.held)))
             elif ev == "XT":
                 # frames in hand = fed - handled so far - still queued - already failed/dropped (none in this section)
                 inhand = len(fed) - n_handled() - proto._queues.read.qsize() - len(excused)
